@@ -227,7 +227,7 @@ def readcodematlab_complex(numtype, shape, endianness,
         else:  # ndim > 2, we need reshape to get multidimensional array
             ct += f"{subvarname} = reshape(fread(fileid, {size}, " \
                   f"'*{typedescr}', " \
-                  f"'{skip}, {endianness}'), {shape});\n"
+                  f"{skip}, '{endianness}'), {shape});\n"
     ct += "fclose(fileid);\n"
     return ct + f"{varname} = complex(re, im);\n"
 
